@@ -1,0 +1,62 @@
+// Copyright 2020-2025 Buf Technologies, Inc.
+//
+// Licensed under the Apache License, Version 2.0 (the "License");
+// you may not use this file except in compliance with the License.
+// You may obtain a copy of the License at
+//
+//      http://www.apache.org/licenses/LICENSE-2.0
+//
+// Unless required by applicable law or agreed to in writing, software
+// distributed under the License is distributed on an "AS IS" BASIS,
+// WITHOUT WARRANTIES OR CONDITIONS OF ANY KIND, either express or implied.
+// See the License for the specific language governing permissions and
+// limitations under the License.
+
+//go:build verif
+
+package bufmigrate
+
+// Contracts for the gocv verifier (see /verif/DESIGN.md). Comment-only. Author ca-Z.
+//
+// C16, migration to v2, the workspace builder (migrate_builder.go): how the module configs of the migrated
+// buf.yaml are assembled from the v1beta1 / v1 files. ("Migrating ... preserves, for every module, the set of files
+// built": the files of a v1beta1 root R with excludes E are the files under moduleDir/R outside E; the v2 module built
+// for it has directory moduleDir/R (relative to the destination), the single root ".", and E as its excludes.)
+//
+// appendModuleConfig: the module config is appended (nothing else changes in the list), a named module is
+// registered under its name with the file it came from, and a second module of the same name is an error.
+//@ trusted pure interface bufconfig.ModuleConfig
+//@ trusted pure interface bufparse.FullName
+//@ func (m *migrateBuilder) appendModuleConfig(moduleConfig, parentPath) (err)
+//@   property C16
+//@   modifies heap migrateBuilder.moduleConfigs, heap migrateBuilder.moduleFullNameStringToParentPath
+//@   ensures appended: len(m.moduleConfigs) == len(old(m.moduleConfigs)) + 1 && m.moduleConfigs[len(old(m.moduleConfigs))] == moduleConfig
+//@   ensures earlier-kept: forall j int :: 0 <= j && j < len(old(m.moduleConfigs)) ==> m.moduleConfigs[j] == old(m.moduleConfigs)[j]
+//@   ensures unnamed-accepted: moduleConfig.FullName() == nil ==> err == nil && m.moduleFullNameStringToParentPath == old(m.moduleFullNameStringToParentPath)
+//@   ensures duplicate-name-rejected: moduleConfig.FullName() != nil && moduleConfig.FullName().String() in old(m.moduleFullNameStringToParentPath) ==> err != nil
+//@   ensures name-registered: moduleConfig.FullName() != nil && !(moduleConfig.FullName().String() in old(m.moduleFullNameStringToParentPath)) ==> err == nil && moduleConfig.FullName().String() in m.moduleFullNameStringToParentPath && m.moduleFullNameStringToParentPath[moduleConfig.FullName().String()] == parentPath
+//@   ensures other-names-kept: forall k string :: k in old(m.moduleFullNameStringToParentPath) ==> k in m.moduleFullNameStringToParentPath && m.moduleFullNameStringToParentPath[k] == old(m.moduleFullNameStringToParentPath)[k]
+//@   canary ensures err != nil
+//
+// addModule: the module configs handed to appendModuleConfig (assertions at the three call sites).
+//   no buf.yaml: an empty module at the module directory (relative to the destination), single root ".", no
+//     includes, no excludes, no name;
+//   v1beta1: one module per root R (roots in sorted order): directory = Rel(destination, Join(moduleDir, R)), the single
+//     root ".", includes / excludes = those of R, the lint and breaking configs translated to v2 (contracts in
+//     zz_verif_contracts.go), the name of the file unless there are several roots (then none: documented in the code);
+//   v1: one module: directory = Rel(destination, Dir(buf.yaml path)), roots / includes / excludes as in the file, the
+//     name of the file.
+// (bufconfig.NewModuleConfig normalizes and sorts the path lists: e_normSet / e_sorted, see its contract. The includes
+// clause is conditional on the root being a key of RootToIncludes(): documented on ModuleConfig -- "the keys in
+// RootToIncludes are always the same as those in RootToExcludes" -- but not a fact about the interface here.)
+//@ trusted pure interface bufconfig.BufYAMLFile
+//@ trusted pure interface bufconfig.ObjectData
+//@ func (m *migrateBuilder) addModule(ctx, moduleDirPath) (retErr)
+//@   property C16
+//@   modifies heap, ghost.fail, ghost.wfail, ghost.e_migrateRuleType, ghost.sinkPaths, ghost.sinkBuckets
+//@   assert before "if err := m.appendModuleConfig("@1 no-buf-yaml-empty-module: cast(*bufconfig.moduleConfig, emptyModuleConfig) != nil && cast(*bufconfig.moduleConfig, emptyModuleConfig).dirPath == normalpath.Normalize(moduleRootRelativeToDestination) && cast(*bufconfig.moduleConfig, emptyModuleConfig).moduleFullName == nil && (forall k string :: (k in cast(*bufconfig.moduleConfig, emptyModuleConfig).rootToExcludes) <==> (k == ".")) && (forall k string :: (k in cast(*bufconfig.moduleConfig, emptyModuleConfig).rootToIncludes) <==> (k == "."))
+//@   assert before "if err := m.appendModuleConfig(moduleConfigForRoot, bufYAMLFilePath)" v1beta1-module-per-root: cast(*bufconfig.moduleConfig, moduleConfigForRoot) != nil && cast(*bufconfig.moduleConfig, moduleConfigForRoot).dirPath == normalpath.Normalize(moduleRootRelativeToDestination) && cast(*bufconfig.moduleConfig, moduleConfigForRoot).moduleFullName == moduleFullName && cast(*bufconfig.moduleConfig, moduleConfigForRoot).lintConfig == lintConfigForRoot && cast(*bufconfig.moduleConfig, moduleConfigForRoot).breakingConfig == breakingConfigForRoot
+//@   assert before "if err := m.appendModuleConfig(moduleConfigForRoot, bufYAMLFilePath)" v1beta1-root-becomes-dot: (forall k string :: (k in cast(*bufconfig.moduleConfig, moduleConfigForRoot).rootToExcludes) <==> (k == ".")) && (forall k string :: (k in cast(*bufconfig.moduleConfig, moduleConfigForRoot).rootToIncludes) <==> (k == "."))
+//@   assert before "if err := m.appendModuleConfig(moduleConfigForRoot, bufYAMLFilePath)" v1beta1-excludes-of-root: forall k string :: k == "." ==> e_normSet(cast(*bufconfig.moduleConfig, moduleConfigForRoot).rootToExcludes[k], moduleConfig.RootToExcludes()[root])
+//@   assert before "if err := m.appendModuleConfig(moduleConfigForRoot, bufYAMLFilePath)" v1beta1-includes-of-root: forall k string :: k == "." && root in moduleConfig.RootToIncludes() ==> e_normSet(cast(*bufconfig.moduleConfig, moduleConfigForRoot).rootToIncludes[k], moduleConfig.RootToIncludes()[root])
+//@   assert before "if err := m.appendModuleConfig(moduleConfig, bufYAMLFilePath)" v1-module: cast(*bufconfig.moduleConfig, moduleConfig) != nil && cast(*bufconfig.moduleConfig, moduleConfig).dirPath == normalpath.Normalize(moduleRootRelativeToDestination) && cast(*bufconfig.moduleConfig, moduleConfig).lintConfig == lintConfig && cast(*bufconfig.moduleConfig, moduleConfig).breakingConfig == breakingConfig
